@@ -152,6 +152,7 @@ type FnCtx struct {
 	freshMsgs  map[string]string     // protoreflect messages made by New(): term -> fresh message ref
 	trackArgT  map[string]types.Type // types of tracked call arguments (ghost$arg$Name$k)
 	intUB      map[string]int    // small static upper bounds of integer terms (lengths of such slices after phi merges)
+	curBlock   *ssa.BasicBlock   // block being executed (innermost frame)
 	grafts     []string          // objects into which a message/list pointer was stored (deep-freshness of newer clones is void for them)
 }
 
@@ -777,6 +778,9 @@ func (c *FnCtx) materialize(v Val, st *State) Val {
 
 func (c *FnCtx) execBlock(fr *Frame, b *ssa.BasicBlock, st *State, rg *region) {
 	rets := rg.rets
+	saved := c.curBlock
+	c.curBlock = b
+	defer func() { c.curBlock = saved }()
 	for _, instr := range b.Instrs {
 		switch i := instr.(type) {
 		case *ssa.Phi, *ssa.DebugRef:
